@@ -11,11 +11,11 @@ included), so merging equal keys is sound.
 from mc import core, explore
 
 LEVEL = "model_checking"
-TYPES = ["a", "b"]
+TYPES = ["a", "b", "c"]
 STATES = ["active", "s2"]
 
 
-def _mk_model():
+def _mk_model(collector=True):
     from BPTK_Py import Model, Agent
     from BPTK_Py.modeling.simultaneousScheduler import SimultaneousScheduler
     from BPTK_Py.modeling.dataCollector import DataCollector
@@ -30,10 +30,16 @@ def _mk_model():
             self.agent_type = "b"
             self.state = "active"
 
+    class C(Agent):
+        def initialize(self):
+            self.agent_type = "c"
+            self.state = "active"
+
     m = Model(starttime=0, stoptime=3, dt=1, name="c14", scheduler=SimultaneousScheduler(),
-              data_collector=DataCollector())
+              data_collector=DataCollector() if collector else None)
     m.register_agent_factory("a", lambda agent_id, model, properties: A(agent_id, model, properties))
     m.register_agent_factory("b", lambda agent_id, model, properties: B(agent_id, model, properties))
+    m._verif_factory_c = lambda agent_id, model, properties: C(agent_id, model, properties)
     return m
 
 
@@ -41,6 +47,7 @@ class Ref:
     def __init__(self):
         self.live = {}       # id -> [type, state]   (insertion order = creation order)
         self.issued = set()
+        self.has_c = False
 
     def ids(self, t):
         return [i for i, (ty, _) in self.live.items() if ty == t]
@@ -50,12 +57,14 @@ AGED = 300      # the aged root: this many agents were created and all but the l
 
 
 class System:
-    def __init__(self, aged=False):
+    def __init__(self, aged=False, collector=True):
         # aged: the search starts from a model with a long past (ids in the hundreds, two survivors) instead of an empty one
+        # collector=False: the model is built without a data collector (the constructor's default), where reset() fails half way
         self.aged = aged
+        self.collector = collector
 
     def new(self):
-        m, ref = _mk_model(), Ref()
+        m, ref = _mk_model(self.collector), Ref()
         if self.aged:
             m.create_agents({"name": "a", "count": AGED})
             m.delete_agents(list(range(AGED - 2)))
@@ -86,6 +95,16 @@ class System:
         ops.append(["reset"])
         for i in live:
             ops.append(["set_state", i, "s2"])
+        # a further agent type is registered while agents are alive; then agents of it can be created
+        if not ref.has_c:
+            ops.append(["register_c"])
+        else:
+            ops.append(["create", "c"])
+        # the list that agent_ids() returns is handed straight back to the deletion
+        for t in TYPES[:2]:
+            if ref.ids(t):
+                ops.append(["delete_ids_of", t])
+                ops.append(["delete_each_of", t])
         return ops
 
     # -- one transition: apply to both, then compare every query ----------------------------
@@ -119,8 +138,25 @@ class System:
                 for a in m.agents:
                     self._issued(ref, viol, a.id, a.agent_type)
             elif kind == "reset":
-                m.reset()
-                ref.live.clear()
+                try:
+                    m.reset()
+                    ref.live.clear()
+                except Exception:
+                    # a reset that fails (the caller handles the error) may or may not have removed the agents; whatever it left, the
+                    # queries must agree with it: the reference adopts the agent list and every query is compared as usual
+                    ref.live = {a.id: [a.agent_type, a.state] for a in m.agents}
+            elif kind == "register_c":
+                m.register_agent_factory("c", m._verif_factory_c)
+                ref.has_c = True
+            elif kind == "delete_ids_of":
+                m.delete_agents(m.agent_ids(op[1]))
+                for i in ref.ids(op[1]):
+                    ref.live.pop(i, None)
+            elif kind == "delete_each_of":
+                for i in m.agent_ids(op[1]):
+                    m.delete_agent(i)
+                for i in ref.ids(op[1]):
+                    ref.live.pop(i, None)
             elif kind == "set_state":
                 ag = m.agent(op[1])
                 if ag is None or ag.id != op[1]:
@@ -161,7 +197,7 @@ class System:
         all_ids = [a.id for a in m.agents]
         if len(set(all_ids)) != len(all_ids):
             viol.append(("ids-not-unique", repr(all_ids)))
-        for t in TYPES:
+        for t in TYPES if ref.has_c else TYPES[:2]:
             want = ref.ids(t)
             ok, got = q("agent_ids", lambda: list(m.agent_ids(t)))
             if ok and sorted(got) != sorted(want):
@@ -188,7 +224,7 @@ class System:
         return viol
 
     def key(self, m, ref):
-        return (m.next_agent_id,
+        return (m.next_agent_id, ref.has_c,
                 tuple((a.id, a.agent_type, a.state) for a in m.agents),
                 tuple(sorted((t, tuple(v)) for t, v in m.agent_type_map.items())),
                 explore.hidden_shape(m))
@@ -196,6 +232,7 @@ class System:
 
 SYSTEM = System()
 SYSTEM_AGED = System(aged=True)
+SYSTEM_NOCOLL = System(collector=False)
 
 
 def _worker(hists):
@@ -204,6 +241,10 @@ def _worker(hists):
 
 def _worker_aged(hists):
     return explore.expand_many(SYSTEM_AGED, hists)
+
+
+def _worker_nocoll(hists):
+    return explore.expand_many(SYSTEM_NOCOLL, hists)
 
 
 def run(ctx):
@@ -216,13 +257,19 @@ def run(ctx):
     res2 = explore.bfs(SYSTEM_AGED, depth_aged, worker_fn=_worker_aged)
     for sig, hist, detail in res2.violations:
         ctx.violation("C14/aged-root/" + sig, {"history": hist, "aged": True}, detail)
+    # a model built without a data collector: reset() fails half way there; whatever it leaves must be consistent
+    depth_nc = 4 if ctx.tier == "quick" else 6
+    res3 = explore.bfs(SYSTEM_NOCOLL, depth_nc, worker_fn=_worker_nocoll)
+    for sig, hist, detail in res3.violations:
+        ctx.violation("C14/no-data-collector/" + sig, {"history": hist, "nocoll": True}, detail)
     ctx.finish({
-        "states": res.states + res2.states, "transitions": res.transitions + res2.transitions,
-        "traces_validated_against_impl": res.transitions + res2.transitions,
+        "states": res.states + res2.states + res3.states, "transitions": res.transitions + res2.transitions + res3.transitions,
+        "traces_validated_against_impl": res.transitions + res2.transitions + res3.transitions,
+        "no_data_collector": {"depth": depth_nc, "states": res3.states, "transitions": res3.transitions},
         "samples": res.samples + [{"aged_root": h} for h in res2.samples[:2]], "depth": depth, "per_level": res.per_level,
         "aged_root": {"created_then_deleted": AGED - 2, "depth": depth_aged, "states": res2.states, "transitions": res2.transitions, "per_level": res2.per_level},
         "exhaustive": not (res.capped or res2.capped),
-        "rule": "BFS over create/create_n/delete(live+dead ids)/delete_n/configure/reset/set_state "
+        "rule": "BFS over create/create_n/delete(live+dead ids)/delete_n/delete of the list agent_ids() returns (at once, one by one)/configure/reset/set_state/registering a third agent type "
                 "on a real Model; every query compared with a dict reference after each transition; a second BFS starts from a model "
                 "in which %d agents were created and all but two deleted (ids passed to the queries by value)" % AGED,
         "oracle_clauses": ["agent(id)", "ids unique/never reused", "agent_ids", "agent_count",
@@ -232,7 +279,7 @@ def run(ctx):
 
 
 def replay(case):
-    system = SYSTEM_AGED if case.get("aged") else SYSTEM
+    system = SYSTEM_AGED if case.get("aged") else (SYSTEM_NOCOLL if case.get("nocoll") else SYSTEM)
     m, ref = system.new()
     out = []
     for op in case["history"]:
